@@ -9,6 +9,7 @@ plaintext.
 """
 from __future__ import annotations
 import copy
+import warnings
 import hashlib
 import json
 
@@ -583,6 +584,23 @@ def run_fault(case, plan, token, token2, fault, entry):
         i = fault["i"] % len(p2["recipients"])
         p2["recipients"][i]["key"] = gk.key_to_record(other_key(p2["recipients"][i], case["seed"] + fault.get("variant", 0)))
         return judge(entry, token, p2)
+    if fault["kind"] == "keysub-blanks":
+        # the consumer's secret differs from the producer's by blanks / line breaks at its ends (handed over as raw octets or text)
+        from joserfc import jwe
+        from joserfc.jwk import OctKey
+        if len(plan["recipients"]) != 1 or plan["recipients"][0]["key"]["kty"] != "oct" or entry not in ("jwe.decrypt_compact", "jwe.decrypt_json"):
+            return "n/a"
+        k = gk.key_from_record(plan["recipients"][0]["key"])["k"]
+        raw = [b" " + k, k + b"\n", b"\r\n" + k + b" ", k + b"\t"][fault["variant"] % 4]
+        with warnings.catch_warnings():
+            warnings.simplefilter("ignore")
+            try:
+                ko = OctKey.import_key(raw)
+                tok = copy.deepcopy(token)
+                got = (jwe.decrypt_compact if entry == "jwe.decrypt_compact" else jwe.decrypt_json)(tok, ko, algorithms=jp.ALL_NAMES).plaintext
+            except Exception:
+                return None
+        return ("returned-under-another-key", f"{entry} returned {str(got)[:40]!r} under a secret that is the producer's plus blanks at its ends ({raw[:3]!r}...{raw[-3:]!r})")
     if fault["kind"] == "sendersub":
         p2 = copy.deepcopy(plan)
         p2["sender"] = gk.key_to_record(other_key({"key": p2["sender"]}, case["seed"] + 7))
@@ -708,6 +726,15 @@ def run_shard(ctx, spec):
                         raise HarnessError(f"reference accepts a token under a substituted key {case!r}")
                     if r is not None:
                         ctx.finding(f"C02:keysub:{plan['ser']}:{algs[i]}:{r[0]}", r[1], _record(case, fault, e, token, token2))
+        for v in range(4):
+            for e in ents:
+                fault = {"kind": "keysub-blanks", "variant": v}
+                r = run_fault(case, plan, token, token2, fault, e)
+                if r == "n/a":
+                    continue
+                ctx.case((label, e, "keysub-blanks", v), cls=["fault:keysub", "fault:keysub-blanks"])
+                if r is not None:
+                    ctx.finding(f"C02:keysub-blanks:{plan['ser']}:{algs[0]}:{r[0]}", r[1], _record(case, fault, e, token, token2))
         if plan["sender"]:
             for e in ents:
                 r = run_fault(case, plan, token, token2, {"kind": "sendersub"}, e)
@@ -759,6 +786,8 @@ def replay(rec) -> dict:
         return {}
     if fault["kind"] == "keysub":
         return {f"C02:keysub:{plan['ser']}:{algs[fault['i'] % len(algs)]}:{r[0]}": r[1]}
+    if fault["kind"] == "keysub-blanks":
+        return {f"C02:keysub-blanks:{plan['ser']}:{algs[0]}:{r[0]}": r[1]}
     if fault["kind"] == "sendersub":
         return {f"C02:sendersub:{plan['ser']}:{algs[0]}:{r[0]}": r[1]}
     if fault["kind"] == "forged-epk":
